@@ -479,6 +479,10 @@ func RunC06(c *core.Ctx) int {
 		fmt.Printf("  clause: %s\n  expected: %s\n  observed: %s\n", firstViolation.out.Sig, firstViolation.out.Expected, firstViolation.out.Observed)
 		return core.ExitViolation
 	}
+	{
+		sres := &CampaignResult{Cases: len(all), Distinct: distinct, Scheds: scheds, Tags: feats, Unrepro: 0}
+		writeSummary(c, sres)
+	}
 	rc := replayKnown(c, known)
 	c.WriteEvidence("exploration", cov, c06Assumptions, 0)
 	fmt.Printf("C06 %s: %d worlds, %d runs, %d exit-0 worlds, %d non-trivial, %d distinct schedules, 0 violations\n", c.Tier, len(all), evals, exit0, len(distinct), len(scheds))
